@@ -39,7 +39,7 @@ Companion(f) == IF f = "lib" THEN "sig" ELSE NONE
 
 VARIABLES start, disk, overlay, hist, pend
 vars == <<start, disk, overlay, hist, pend>>
-NoOp == [o |-> "none", f |-> "root", v |-> NONE]
+NoOp == [o |-> "none", f |-> "root", v |-> NONE, sp |-> "canonical"]
 Eff(f) == IF overlay[f] # NONE THEN overlay[f] ELSE disk[f]
 
 OK(seen) == [err |-> "none", at |-> NONE, seen |-> seen]
@@ -101,7 +101,13 @@ Init == /\ start \in Starts /\ disk = StartState(start)
 
 (* the state change and the observation are separate steps: the answer is computed on unprimed *)
 (* variables (TLC does not cache LET values in a primed context)                               *)
-Log(op) == pend' = op /\ UNCHANGED hist
+(* An edit names its file by a PATH, and a file has many spellings (`dir/f`, `dir/./f`, `dir/sub/../f`, through a    *)
+(* symlinked directory).  The state is per FILE: no transition and no answer depends on the spelling - that is the   *)
+(* statement.  To make the replay exercise it without multiplying the histories, the spelling of the k-th operation  *)
+(* alternates (canonical / another), the phase depending on the start state.                                         *)
+Rot == IF start \in {"lib-absent", "companion-mismatch"} THEN 0 ELSE 1
+SpellOf(k) == IF (k + Rot) % 2 = 1 THEN "other" ELSE "canonical"
+Log(op) == pend' = (op @@ [sp |-> SpellOf(Len(hist) + 1)]) /\ UNCHANGED hist
 Observe == /\ pend.o # "none"
            /\ hist' = Append(hist, [op |-> pend, expect |-> Answer])
            /\ pend' = NoOp /\ UNCHANGED <<start, disk, overlay>>
